@@ -15,10 +15,10 @@ import (
 func init() {
 	imports := "From Coq Require Import QArith.\nFrom Verif Require Import Gen.Facts Model.TokenBucket Model.RateLimit Corr.RateLimitCorr Corr.C18."
 	nt := func(c *Case) bool { return c.Tags["admitted"] > 0 && c.Tags["denied"] > 0 }
-	Props["C18"] = &Prop{Imports: imports, Gen: func(r *Rand, idx int, tier string) Case { return genC18(r, idx, true) },
-		Corpus: corpusC18, NonTrivial: nt, ShardSize: 60}
-	Props["C18ns"] = &Prop{Imports: imports, Gen: func(r *Rand, idx int, tier string) Case { return genC18(r, idx, false) },
-		Corpus: corpusC18ns, NonTrivial: nt, ShardSize: 60}
+	Props["C18"] = &Prop{Imports: imports, Gen: func(r *Rand, idx int, tier string) Case { return genC18(r, idx, true, tier) },
+		Corpus: corpusC18, NonTrivial: nt, ShardSize: 40}
+	Props["C18ns"] = &Prop{Imports: imports, Gen: func(r *Rand, idx int, tier string) Case { return genC18(r, idx, false, tier) },
+		Corpus: corpusC18ns, NonTrivial: nt, ShardSize: 40}
 }
 
 func pickRate(r *Rand) int  { return PickInt(r, 0, 1, 1, 3, 3, 1000, 10, 2) }
@@ -66,7 +66,7 @@ func fracRate(r *Rand, strict bool) float64 {
 
 func PickFloat(r *Rand, xs ...float64) float64 { return xs[r.Intn(len(xs))] }
 
-func genC18(r *Rand, idx int, strict bool) Case {
+func genC18(r *Rand, idx int, strict bool, tier string) Case {
 	dt := gridDt
 	if !strict {
 		dt = nsDt
@@ -86,7 +86,11 @@ func genC18(r *Rand, idx int, strict bool) Case {
 		nips := 1 + r.Intn(6)
 		n := 10 + r.Intn(60)
 		kind := "perip"
-		if r.Chance(6) { // more addresses than one cleanup pass deletes (cap 100): which buckets go is up to the map order
+		overCapPct := 1 // big cases: rare in the quick tier (one is in the corpus)
+		if tier == "thorough" {
+			overCapPct = 6
+		}
+		if r.Chance(overCapPct) { // more addresses than one cleanup pass deletes (cap 100): which buckets go is up to the map order
 			nips, n, kind = 130, 300, "perip-over-cap"
 		}
 		var evs []rlEvent
@@ -187,6 +191,16 @@ func corpusC18() []Case {
 	ev2 := append(reqs(3, 0, 0, 7), rlEvent{dt: 0, kind: evClose, conn: 7})
 	ev2 = append(ev2, reqs(3, 0, 0, 7)...)
 	cs = append(cs, runRL(rlTarget{kind: tFull, cfg: b2}, true, ev2, "close-reuse-conn", 6))
+	// 130 idle addresses, cleanup due: one pass deletes only 100 of them (which ones is up to the map order)
+	var ev3 []rlEvent
+	for i := 0; i < 130; i++ {
+		ev3 = append(ev3, rlEvent{dt: 0, kind: evReq, ip: uint64(i)})
+	}
+	ev3 = append(ev3, rlEvent{dt: 10 * sec, kind: evReq, ip: 0})
+	for i := 0; i < 40; i++ {
+		ev3 = append(ev3, rlEvent{dt: int64(i%3) * tick, kind: evReq, ip: uint64((i * 7) % 130)})
+	}
+	cs = append(cs, runRL(rlTarget{kind: tPerIP, rate: 0.5, burst: 1, iv: time.Second}, true, ev3, "perip-over-cap", 7))
 	return cs
 }
 
